@@ -118,7 +118,7 @@ def run(chk):
         "errors become payload errors; the final flush is asserted empty."
     )
     chk.not_decided = "equality with the reference decoding, progress to EOF in every schedule, the constant factor of the memory bound."
-    chk.explanation += " Also decided: the size test inside an accumulating loop is conditional on nothing but the limit and compares a running total."
+    chk.explanation += " Also decided: the size test inside an accumulating loop is conditional on nothing but the limit and compares a running total. After the defect hunt: a pause request never outlives the feed_data() call that honours it; a stream at EOF does not resume reading; the client protocol must keep a parser that still holds parked input (known finding F65)."
     bounded_calls(chk, repo)
 
     # ---- C09.flush ------------------------------------------------------------------------------------------
